@@ -14,6 +14,7 @@ import (
 
 	"verif/harness/cov"
 	"verif/harness/opt"
+	"verif/harness/ref"
 	"verif/harness/rt"
 	"verif/harness/tv"
 )
@@ -97,16 +98,16 @@ func genCase(formats bool) func(t *rapid.T) Case {
 			cfg.MaxDepth = rapid.IntRange(3, 6).Draw(t, "embeddepth")
 			cfg.MaxFields = 3
 		}
+		cfg.TimeKinds = true
 		if formats {
 			cfg.Formats = true
-			cfg.TimeKinds = true
 			cfg.DurNoFormat = durNoFormat
 			c.Opts = append(c.Opts, opt.B("ExperimentalSupportFormatTag", true))
 		}
 		c.Desc = tv.GenDesc(t, cfg)
 		n := rapid.IntRange(1, 6).Draw(t, "nvals")
 		for i := 0; i < n; i++ {
-			c.Vals = append(c.Vals, tv.GenVal(t, c.Desc, tv.ValCfg{AnyCanonical: true}))
+			c.Vals = append(c.Vals, tv.GenVal(t, c.Desc, tv.ValCfg{AnyCanonical: true, ZoneMinutes: !formats}))
 		}
 		return c
 	}
@@ -230,7 +231,11 @@ func Run(c Case) error {
 				return fmt.Errorf("third Marshal failed: %v", err)
 			}
 			if !bytes.Equal(b2, b3) {
-				return fmt.Errorf("no fixed point after one round:\n b1 %s\n b2 %s\n b3 %s\ntype %s\nopts %v", b1, b2, b3, sig, c.Opts)
+				err := fmt.Errorf("no fixed point after one round:\n b1 %s\n b2 %s\n b3 %s\ntype %s\nopts %v", b1, b2, b3, sig, c.Opts)
+				if peelsToFixedPoint(typ, b2, b3, opts) {
+					return rt.Known(clsOmitPeels, err)
+				}
+				return err
 			}
 			rec.Class("fixed-point-second-round")
 			continue
@@ -374,4 +379,81 @@ func enumFloat32(e *rt.Env, yield func(F32Case) bool) {
 		name = fmt.Sprintf("float32 bit patterns, every %dth (seed-dependent offset): AppendFloat(.,32) -> Unmarshal -> identical bits", stride)
 	}
 	e.Rec.AddPart(cov.Part{Name: name, Size: total, Complete: complete && stride == 1, Stride: int64(stride)})
+}
+
+// clsOmitPeels classifies the finding that, under omitzero / omitempty /
+// OmitZeroStructFields, a round of Unmarshal+Marshal can remove one more level
+// of members that were only written because a pointer had been allocated for
+// a member that is itself omitted in the next round: {"b":{"X":{}}} ->
+// {"b":{}} -> {}. The fixed point is reached after as many rounds as there are
+// such levels, not after one.
+const clsOmitPeels = "omit-peels-one-allocated-level-per-round"
+
+// peelsToFixedPoint reports whether the rounds that follow b2 -> b3 reach a
+// fixed point within eight rounds and every step only deletes members whose
+// value is an empty object.
+func peelsToFixedPoint(typ reflect.Type, prev, cur []byte, opts []json.Options) bool {
+	for round := 0; round < 8; round++ {
+		if !peelStep(prev, cur) {
+			return false
+		}
+		v := reflect.New(typ)
+		if json.Unmarshal(cur, v.Interface(), opts...) != nil {
+			return false
+		}
+		next, err := json.Marshal(v.Elem().Interface(), opts...)
+		if err != nil {
+			return false
+		}
+		if bytes.Equal(next, cur) {
+			return true
+		}
+		prev, cur = cur, next
+	}
+	return false
+}
+
+// peelStep: b equals a with some members removed whose value in a is {}.
+func peelStep(a, b []byte) bool {
+	po := ref.Opt{AllowInvalidUTF8: true, AllowDup: true}
+	x, err1 := ref.Parse(a, po)
+	y, err2 := ref.Parse(b, po)
+	if err1 != nil || err2 != nil {
+		return false
+	}
+	removed := 0
+	var same func(x, y *ref.Node) bool
+	same = func(x, y *ref.Node) bool {
+		if x.Kind != y.Kind {
+			return false
+		}
+		switch x.Kind {
+		case '[':
+			if len(x.Elems) != len(y.Elems) {
+				return false
+			}
+			for i := range x.Elems {
+				if !same(x.Elems[i], y.Elems[i]) {
+					return false
+				}
+			}
+			return true
+		case '{':
+			j := 0
+			for _, m := range x.Members {
+				if j < len(y.Members) && bytes.Equal(a[m.Name.Start:m.Name.End], b[y.Members[j].Name.Start:y.Members[j].Name.End]) && same(m.Value, y.Members[j].Value) {
+					j++
+					continue
+				}
+				if m.Value.Kind == '{' && len(m.Value.Members) == 0 {
+					removed++
+					continue
+				}
+				return false
+			}
+			return j == len(y.Members)
+		}
+		return bytes.Equal(a[x.Start:x.End], b[y.Start:y.End])
+	}
+	return same(x, y) && removed > 0
 }
